@@ -155,8 +155,7 @@ def check(pid, tier):
                         functions_under_contract=ded.functions,
                         obligation_list=[o.to_json() for o in ded.obligations],
                         solver_seconds=round(sum(o.seconds for o in ded.obligations), 2),
-                        demotions=ded.demotions, vacuity=ded.vacuity,
-                        encoder_crosscheck=ded.crosscheck)
+                        demotions=ded.demotions, vacuity=ded.vacuity)
     if level == 'proof' and (not cnt['obligations'] or cnt['discharged'] != cnt['obligations']):
         # never claim a proof the run did not produce
         level = 'other'
@@ -172,6 +171,15 @@ def check(pid, tier):
         coverage['checker_errors'] = checker_errors
     coverage['known_findings_reported'] = [l for l in lines if l.startswith('KNOWN')]
     assumptions = list(ded.assumptions) + list(getattr(mod, 'ASSUMPTIONS', []))
+    if cnt['obligations']:
+        assumptions += [
+            'pyvc (the VC generator written for this task) encodes the Python semantics of the subset it accepts: mathematical '
+            'integers, reals for floats where stated, heap objects by integer address with one map per field, dict/set = map + '
+            'ghost size, list = (array, length), exceptions as outcomes; there is no machine-checked semantics behind it - it is '
+            'validated by deliberate-breakage experiments (selftest/deductive_mutants.py, seeded/) and by the bounded layer',
+            'z3 5.1 and cvc5 answers are trusted (unsat = proved); assumed contracts of builtins, stdlib and OS calls are listed '
+            'under coverage.trusted_base',
+            'termination is not proved']
     core.write_evidence(pid, tier, level, coverage, assumptions, time.time() - t0, violations)
 
     for l in lines:
